@@ -2,5 +2,11 @@ package main
 
 // propertyExtras returns the obligations produced by property-specific generators.
 func propertyExtras(eng *Engine, prop, tier, vdir string) (extras []Extra, bounded []string, notes []string) {
-	return nil, nil, nil
+	switch prop {
+	case "C15":
+		ex, n := relangExtras(eng, vdir)
+		extras = append(extras, ex...)
+		notes = append(notes, n...)
+	}
+	return extras, bounded, notes
 }
